@@ -479,6 +479,36 @@ func runC08(c *mon.Ctx) {
 				}
 			}
 		}
+		// (a2) versions in which creators stand above the power levels: an event that names one of them in users, with
+		// whatever level (the one creators have anyway included), as the room's first power-levels event or a later one
+		if t.PLCreatorCheck {
+			for _, named := range creators {
+				for _, level := range []int64{9007199254740991, 9007199254740990, 100, 0} {
+					for _, first := range []bool{true, false} {
+						caseNo++
+						if !c.Mine(caseNo) {
+							continue
+						}
+						var cur *ref.Value
+						var curEv gmsl.PDU
+						if !first {
+							cur = ref.O("users", ref.O(other, ref.I(30)), "users_default", ref.I(10), "events", ref.O("m.room.power_levels", ref.I(0)))
+							curEv = w.mustBuild("m.room.power_levels", strp(""), authUsers[0], cur)
+						}
+						proposed := ref.O("users", ref.O(other, ref.I(30), named, ref.I(level)), "users_default", ref.I(10), "events", ref.O("m.room.power_levels", ref.I(0)))
+						for _, sender := range creators {
+							name := fmt.Sprintf("creator-named:%s:first=%v:level=%d", ver, first, level)
+							c.Case(name, map[string]any{"version": ver, "sender": sender, "named": named, "level": level, "first_power_levels_event": first, "proposed": gen.Describe(proposed)}, func() {
+								c.Nontrivial(name + "|" + named + "|" + sender)
+								if _, ok := tryPL(c, w, curEv, proposed, sender, joined); ok {
+									checkNoEscalation(c, t, creators, cur, proposed, sender, name)
+								}
+							})
+						}
+					}
+				}
+			}
+		}
 		// (b) random multi-key proposals
 		nB := c.Scale(6000, 720000) / len(versions)
 		for k := 0; k < nB; k++ {
